@@ -20,6 +20,8 @@ pub enum Op {
 
 #[derive(Default)]
 struct Log {
+  // controlled threads started by the harness itself (main + posters)
+  harness_tids: Vec<usize>,
   // (task, start, end, tid)
   runs: Vec<(u32, u64, u64, usize)>,
   // (task, call, ret, poster tid)
@@ -96,11 +98,13 @@ pub fn history_scn(name: &str, hist: Vec<Vec<Op>>, q: Option<u32>, t: Option<u32
     let hist = hist2.clone();
     let l_body = log.clone();
     let body: Body = Box::new(move || {
-      let sch = schedulers::new_thread_scheduler()(); // worker = t1
+      l_body.lock().unwrap().harness_tids.push(rxverif_rt::tid());
+      let sch = schedulers::new_thread_scheduler()();
       let mut hs = vec![];
       for ops in hist.iter().skip(1).cloned() {
         let (l, s) = (l_body.clone(), sch.clone());
         hs.push(thread::spawn(move || {
+          l.lock().unwrap().harness_tids.push(rxverif_rt::tid());
           for o in &ops {
             do_op(&l, o, &s);
           }
@@ -117,7 +121,9 @@ pub fn history_scn(name: &str, hist: Vec<Vec<Op>>, q: Option<u32>, t: Option<u32
     let check: Check = Box::new(move |e: &ExecEnd| {
       let l = log.lock().unwrap();
       let aborting = has_abort(&hist);
-      let worker_parked_ok = if aborting { vec![] } else { vec![1usize] };
+      // the scheduler's own threads = every controlled thread the harness did not start
+      let sched_threads: Vec<usize> = (0..e.threads.len()).filter(|t| !l.harness_tids.contains(t)).collect();
+      let worker_parked_ok = if aborting { vec![] } else { sched_threads.clone() };
       let mut v = base_violations(e, &worker_parked_ok);
       // an abort issued from inside a task only happens if that task ran
       let abort_done = !l.aborts.is_empty();
@@ -151,10 +157,16 @@ pub fn history_scn(name: &str, hist: Vec<Vec<Op>>, q: Option<u32>, t: Option<u32
           }
         }
       }
-      // one worker thread, distinct from every external poster
+      // one worker thread, distinct from every poster
+      let mut task_tids: Vec<usize> = runs.iter().map(|r| r.3).collect();
+      task_tids.sort();
+      task_tids.dedup();
+      if task_tids.len() > 1 {
+        v.push(viol("tasks-on-several-threads", format!("tasks ran on threads {:?}", task_tids)));
+      }
       for r in &runs {
-        if r.3 != 1 {
-          v.push(viol("wrong-thread", format!("task {} ran on t{} (worker is t1)", r.0, r.3)));
+        if l.harness_tids.contains(&r.3) {
+          v.push(viol("task-on-a-poster-thread", format!("task {} ran on t{}, which is a thread that posts", r.0, r.3)));
         }
       }
       // After abort returned no further task is *taken from the queue*. A
@@ -181,8 +193,10 @@ pub fn history_scn(name: &str, hist: Vec<Vec<Op>>, q: Option<u32>, t: Option<u32
       let quiescent_ok = e.threads.len() > 1;
       if quiescent_ok {
         if abort_done {
-          if e.threads[1].end != ThreadEnd::Finished {
-            v.push(viol("worker-not-exited-after-abort", format!("worker end state {:?}", e.threads[1].end)));
+          for t in &sched_threads {
+            if e.threads[*t].end != ThreadEnd::Finished {
+              v.push(viol("worker-not-exited-after-abort", format!("scheduler thread t{} has not exited: {}", t, thread_summary(e))));
+            }
           }
         } else if !aborting {
           // no abort anywhere: every posted task must have run (else lost wake-up)
